@@ -239,6 +239,17 @@ func runC17(c *fw.Case) (o fw.Outcome) {
 				n = len(aimedLens)
 				o.Tag(fmt.Sprintf("pco-total=%d", T))
 			}
+			if i == 4 { // many TINY units: an extended PCO holds up to 21844 empty ones
+				cnt := []int{1000, 4095, 4096, 4097, 8192, 12000, 16384, 21844}[blk%8]
+				aimedLens = make([]int, cnt)
+				for u := range aimedLens {
+					if 3*cnt+u < 60000 && r.Intn(4) == 0 {
+						aimedLens[u] = r.Intn(3)
+					}
+				}
+				n = cnt
+				o.Tag(fmt.Sprintf("pco-units=%d", cnt))
+			}
 			for u := 0; u < n; u++ {
 				l := pick(r, 0, 1, 2, 4, 16, 255, r.Intn(256))
 				if aimedLens != nil {
